@@ -24,11 +24,11 @@ class C03(Prop):
     pkg = "hcore"
     binname = "c03"
     quick_cases = 6000
-    thorough_cases = 120000
+    thorough_cases = 60000
     shard = 250
     rule = ("groups of 2-4 (mostly 3) keys derived from one another (identical, label permutation/rotation/swap, one value or "
             "name changed, label dropped/added/duplicated, name changed or extended) over small alphabets (empty strings, "
-            "non-ASCII, NUL), 0..12 labels with the lengths 0,1,2,3,7,8,9,12 favoured, both with pairwise distinct label names and "
+            "non-ASCII, NUL), 0..12 labels with the lengths 0,1,2,3,7,8,9,12 favoured (1 in 40 groups: 21..40 labels over three names, all values different), both with pairwise distinct label names and "
             "with repeated names/labels; each key built through a random constructor (from_name, From<name>, from_parts with "
             "Vec / slice::Iter / &[(String,String)], From<(name,labels)>, from_static_name/parts/labels), random string flavours "
             "(static, owned, Arc), random split into with_extra_labels calls (incl. empty), random clone/get_hash calls; a case is "
@@ -113,7 +113,7 @@ class C03(Prop):
         elif r == 14:
             ls = sorted(ls)
         # r == 15: identical
-        return [name, ls[:12]]
+        return [name, ls[:40]]
 
     def _dress(self, rng, key):
         name, ls = key
@@ -134,12 +134,35 @@ class C03(Prop):
         ops = "".join(rng.pick("ch") for _ in range(rng.weighted([(5, 0), (3, 1), (2, 2), (1, 3)])))
         return dict(ctor=ctor, name=hx(name), nf=uniform or fl(), chunks=chunks, ops=ops)
 
+    def _exhaustive(self, n):
+        """all unordered pairs of 2-label lists over {a,b}x{0,1}, then of 3-label lists over {(a,0),(a,1),(b,0)}"""
+        out = []
+        def plain(name, ls, ctor):
+            return dict(ctor=ctor, name=hx(name), nf="o", chunks=[[[hx(k), "o", hx(v), "s"] for k, v in ls]], ops="")
+        def pairs(lists):
+            for i in range(len(lists)):
+                for j in range(i + 1):
+                    out.append(dict(keys=[plain("k", lists[i], "P"), plain("k", lists[j], "S")]))
+        l2 = [(k, v) for k in "ab" for v in "01"]
+        if n >= 1000:
+            pairs([[x, y] for x in l2 for y in l2])
+        l3 = [("a", "0"), ("a", "1"), ("b", "0")]
+        if n >= 2000:
+            pairs([[x, y, z] for x in l3 for y in l3 for z in l3])
+        return out
+
     def gen(self, rng, n):
-        cases = []
+        cases = self._exhaustive(n)
+        self.stats = dict(exhaustive_small_pairs=len(cases), label_counts={}, ctors={}, keys=0)
+        n -= len(cases)
         for _ in range(n):
             cnt = rng.weighted(COUNTS)
             distinct = rng.chance(2, 5)
             a = [rng.pick(NAMES), self._labels(rng, cnt, distinct)]
+            if rng.chance(1, 40):
+                # long label lists with few names and all-different values: std's merge sort path (> 20
+                # elements) must keep same-name labels in supplied order
+                a[1] = [[rng.pick(["a", "b", ""]), "%d" % i] for i in range(rng.range(21, 40))]
             keys = [a]
             nk = rng.weighted([(1, 2), (8, 3), (1, 4)])
             while len(keys) < nk:
@@ -149,7 +172,22 @@ class C03(Prop):
                     keys.append(self._mutate(rng, rng.pick(keys)))
             keys = rng.shuffle(keys)
             cases.append(dict(keys=[self._dress(rng, k) for k in keys]))
+        for c in cases:
+            for k in c["keys"]:
+                nl = sum(len(ch) for ch in k["chunks"])
+                self.stats["label_counts"][nl] = self.stats["label_counts"].get(nl, 0) + 1
+                self.stats["ctors"][k["ctor"]] = self.stats["ctors"].get(k["ctor"], 0) + 1
+                self.stats["keys"] += 1
         return cases
+
+    def extra_checks(self, ctx):
+        st = getattr(self, "stats", None)
+        if st:
+            ctx["coverage"]["keys_built"] = st["keys"]
+            ctx["coverage"]["exhaustive_small_pairs"] = st["exhaustive_small_pairs"]
+            ctx["coverage"]["keys_by_label_count"] = {str(k): v for k, v in sorted(st["label_counts"].items())}
+            ctx["coverage"]["keys_by_constructor"] = dict(sorted(st["ctors"].items()))
+        return []
 
     # ------------------------------------------------------------------ implementation side
     def impl_line(self, c):
@@ -233,6 +271,13 @@ class C03(Prop):
         for i, k in enumerate(keys):
             def rep(nk):
                 return dict(keys=keys[:i] + [nk] + keys[i + 1:])
+            for ci, ch in enumerate(k["chunks"]):
+                if len(ch) >= 4:
+                    h = len(ch) // 2
+                    for part in (ch[:h], ch[h:], ch[:h // 2] + ch[h:], ch[:h] + ch[h + (len(ch) - h) // 2:]):
+                        nch = [list(x) for x in k["chunks"]]
+                        nch[ci] = part
+                        cands.append(rep(dict(k, chunks=nch)))
             for ci, ch in enumerate(k["chunks"]):
                 for li in range(len(ch)):
                     nch = [list(x) for x in k["chunks"]]
